@@ -130,6 +130,11 @@ def build_case(sub_seed: int, q: int, thorough: bool = False, family: Optional[s
             break
     else:
         A = np.eye(q) + 0.1 * rng.standard_normal((q, q))
+    # the re-mix claim holds for ANY invertible matrix: half of the cases rescale the whole matrix by a factor 1e-10 … 1e10 (inputs recorded in
+    # other units); drawn from a side stream so that the generated records stay what they were
+    sc_rng = np.random.default_rng([int(sub_seed) & 0xFFFFFFFF, 0xA5C])
+    if sc_rng.random() < 0.5:
+        A = A * float(10.0 ** sc_rng.uniform(-10, 10))
     perm = [int(p) for p in rng.permutation(q)]
     if q >= 2 and perm == list(range(q)):
         perm = perm[1:] + perm[:1]
